@@ -56,6 +56,12 @@ def holds(name, cond):
     return Clause(name, "true", jnp.asarray(cond))
 
 
+def independent_of(name, value, leaves):
+    """Frame / dependence clause: ``value`` must not depend on any of the given *input leaves*
+    (checked on the symbolic result by following symbols through atoms and opaque calls)."""
+    return Clause(name, "indep", jnp.asarray(value), lhs=list(leaves))
+
+
 def define(name, out_leaf, expr):
     """Equality ``out_leaf == expr`` where ``out_leaf`` is literally a leaf of the result.
 
@@ -376,6 +382,52 @@ class Result:
     num_eqns: int = 0
 
 
+def dependency_cone(v):
+    """All symbols a symbolic value depends on, through atoms and opaque (kernel/callee/stub) calls."""
+    rec_of = {}
+    for rec in prims.CALL_LOG:
+        for sids in rec["out_sids"]:
+            for x in np.asarray(sids).reshape(-1):
+                if x >= 0:
+                    rec_of[int(x)] = rec
+    seen = set()
+    stack = list(v.p.syms()) if isinstance(v, V) else []
+    if isinstance(v, B):
+        stack = _bool_syms(v)
+    while stack:
+        sid = stack.pop()
+        if sid in seen:
+            continue
+        seen.add(sid)
+        info = P.SYMS[sid]
+        if info["kind"] == "atom":
+            for a in info.get("args", ()):
+                if isinstance(a, V):
+                    stack.extend(a.p.syms())
+                elif isinstance(a, B):
+                    stack.extend(_bool_syms(a))
+        rec = rec_of.get(sid)
+        if rec is not None:
+            for o in rec["operands"]:
+                if interp.is_obj(o):
+                    for x in o.reshape(-1):
+                        if isinstance(x, V):
+                            stack.extend(x.p.syms())
+                        elif isinstance(x, B):
+                            stack.extend(_bool_syms(x))
+    return seen
+
+
+def _bool_syms(b):
+    out = []
+    for a in b.args:
+        if isinstance(a, V):
+            out.extend(a.p.syms())
+        elif isinstance(a, B):
+            out.extend(_bool_syms(a))
+    return out
+
+
 def symbolic_inputs(tree, inst: Instance):
     """Replace every float array leaf by fresh symbols; returns (sym leaves, input sid arrays)."""
     leaves, treedef, arr_idx = split_leaves(tree)
@@ -494,11 +546,29 @@ def _verify(contract, inst, res, seed, tier):
         full = [next(it) if s is None else s for s in out_static]
         result = jax.tree_util.tree_unflatten(out_tree, full)
         cl = contract.ensures(result, *a, **k)
-        return [(jnp.asarray(c.lhs) - c.value) if c.kind == "def" else c.value for c in cl], [(c.name, c.kind) for c in cl]
+        metas = []
+        for c in cl:
+            which = None
+            if c.kind == "indep":
+                which = [j for j, x in enumerate(ins) if any(x is l for l in c.lhs)]
+            metas.append((c.name, c.kind, which))
+        return [(jnp.asarray(c.lhs) - c.value) if c.kind == "def" else c.value for c in cl], metas
 
     n_before = len(ctx.obligations)
     vals, meta = _trace_eval(ctx, ens, avals + out_avals, list(sym) + list(outs))
-    for (nm, kind), val in zip(meta, vals):
+    for (nm, kind, which), val in zip(meta, vals):
+        if kind == "indep":
+            forbidden = set()
+            for j in which:
+                if in_sids[j] is not None:
+                    forbidden |= {int(x) for x in np.asarray(in_sids[j]).reshape(-1) if x >= 0}
+            val = val if interp.is_obj(val) else interp.to_obj(val)
+            for ix in np.ndindex(*val.shape):
+                deps = dependency_cone(val[ix])
+                bad = sorted(deps & forbidden)
+                ok = P.TRUE if not bad else P.FALSE
+                ctx.obligations.append({"name": f"ensures.{nm}" + (str(list(ix)).replace(" ", "") if val.shape else ""), "kind": "bool", "goal": ok, "path": [], "n_assm": 0, "side": "frame", "detail": [P.SYMS[b]["name"] for b in bad[:6]]})
+            continue
         _emit(ctx, f"ensures.{nm}", kind, val, as_goal=True)
 
     res.prims_seen = dict(ctx.prims_seen)
